@@ -277,6 +277,21 @@ def inline_fresh_constants(tree: ast.Module, ref_mod: dict) -> None:
             prev, self.cls = self.cls, node.name
             self.generic_visit(node)
             self.cls = prev
+            # in the class body itself (not in the methods) a class-level constant is a bare name
+            fc = fresh_cls.get(node.name, {})
+            if fc:
+                class _B(ast.NodeTransformer):
+                    def visit_FunctionDef(self, n):
+                        return n
+
+                    def visit_Lambda(self, n):
+                        return n
+
+                    def visit_Name(self, n):
+                        if isinstance(n.ctx, ast.Load) and n.id in fc:
+                            return ast.copy_location(copy.deepcopy(fc[n.id]), n)
+                        return n
+                node.body = [_B().visit(st) if not isinstance(st, ast.FunctionDef) else st for st in node.body]
             return node
 
         def visit_Name(self, node):
@@ -1032,6 +1047,40 @@ def adopt_reference_tests(fn: ast.FunctionDef, ref_fn: dict) -> None:
     ast.fix_missing_locations(fn)
 
 
+def dict_iteration_forms(fn: ast.FunctionDef, ref_fn: dict) -> None:
+    """`for k in D: ... D[k] ...`  ->  `for k, v in D.items(): ... v ...` where the reference iterates over D.items(); D is not
+    stored into and k not re-bound inside the loop, so D[k] is the value the items() pair carries."""
+    import re as _re
+    ref_lines = [l.strip() for l in ref_fn.get("src", "").splitlines()]
+    for node in [n for n in ast.walk(fn) if isinstance(n, ast.For)]:
+        if not isinstance(node.target, ast.Name) or isinstance(node.iter, ast.Call):
+            continue
+        d_txt, k = _u(node.iter), node.target.id
+        m = None
+        for l in ref_lines:
+            m = _re.fullmatch(r"for ([A-Za-z_][A-Za-z_0-9]*), ([A-Za-z_][A-Za-z_0-9]*) in " + _re.escape(d_txt) + r"\.items\(\):", l)
+            if m:
+                break
+        if not m:
+            continue
+        v = m.group(2)
+        if any(isinstance(x, ast.Name) and x.id == v for x in ast.walk(fn)):
+            continue
+        body_nodes = [x for st in node.body for x in ast.walk(st)]
+        if any(isinstance(x, ast.Name) and x.id == k and isinstance(x.ctx, (ast.Store, ast.Del)) for x in body_nodes):
+            continue
+        if any(isinstance(x, ast.Subscript) and isinstance(x.ctx, (ast.Store, ast.Del)) and _u(x.value) == d_txt for x in body_nodes):
+            continue
+        hits = [x for x in body_nodes if isinstance(x, ast.Subscript) and isinstance(x.ctx, ast.Load) and _u(x.value) == d_txt and isinstance(x.slice, ast.Name) and x.slice.id == k]
+        if not hits:
+            continue
+        for h in hits:
+            _replace_node(node, h, ast.Name(id=v, ctx=ast.Load()))
+        node.target = ast.Tuple(elts=[ast.Name(id=k, ctx=ast.Store()), ast.Name(id=v, ctx=ast.Store())], ctx=ast.Store())
+        node.iter = ast.Call(func=ast.Attribute(value=node.iter, attr="items", ctx=ast.Load()), args=[], keywords=[])
+    ast.fix_missing_locations(fn)
+
+
 def hoist_common_tail(fn: ast.FunctionDef, ref_fn: dict) -> None:
     """`if c: A; T else: B; T`  ->  `if c: A else: B` + T, for a statement T that the reference function has fewer times than
     the current one (tail duplication undone).  Falling off the end of either branch reaches T in both forms."""
@@ -1327,6 +1376,21 @@ def normalise_expression_forms(fn: ast.FunctionDef, ref_fn: dict) -> None:
                                 break
                         if changed:
                             break
+                # return next((e for v in it if c), default)  ->  for v in it: if c: return e / return default
+                if isinstance(st, ast.Return) and isinstance(st.value, ast.Call) and _u(st.value.func) == "next" and len(st.value.args) == 2 and not st.value.keywords \
+                        and isinstance(st.value.args[0], ast.GeneratorExp) and len(st.value.args[0].generators) == 1 and _is_literal(st.value.args[1]) \
+                        and not st.value.args[0].generators[0].is_async:
+                    ge = st.value.args[0]
+                    g = ge.generators[0]
+                    if any(l.startswith("for ") and l.endswith(f" in {_u(g.iter)}:") for l in ref_lines):
+                        body = [ast.Return(value=ge.elt)]
+                        for cnd in reversed(g.ifs):
+                            body = [ast.If(test=cnd, body=body, orelse=[])]
+                        loop = ast.For(target=g.target, iter=g.iter, body=body, orelse=[])
+                        blk[i:i + 1] = [ast.copy_location(loop, st), ast.copy_location(ast.Return(value=st.value.args[1]), st)]
+                        ast.fix_missing_locations(fn)
+                        changed = True
+                        break
                 # x = next((e for v in it if c), default)  ->  for v in it: if c: x = e; break / else: x = default
                 if isinstance(st, ast.Assign) and len(st.targets) == 1 and isinstance(st.value, ast.Call) and _u(st.value.func) == "next" and len(st.value.args) == 2 \
                         and not st.value.keywords and isinstance(st.value.args[0], ast.GeneratorExp) and len(st.value.args[0].generators) == 1 \
